@@ -401,7 +401,10 @@ def s6(ctx, R):
             m = name[5:]
             g = R.Command.methods.get(m) or next((x for n, x in R.Command.methods.items() if n.lstrip("_") == m.lstrip("_")), None)
             if m == "has_arguments":
-                return [(fd.Const(True), None)]
+                ad_ = st.env.get("self.args_definition")
+                return [(fd.Const(not (isinstance(ad_, fd.Const) and ad_.v == [])), None)]
+            if m == "get_type" and isinstance(st.env.get("self._type"), fd.Const):
+                return [(st.env["self._type"], None)]
             if g is printer and g is not None:
                 return [(fd.Const(None), ("print", args[0] if args else None))]
             if g is not None and g not in (R.tosieve,) and m not in ("get_type",):
@@ -505,6 +508,53 @@ def s6(ctx, R):
                           witness="a command using this slot form serialises to text that does not re-parse to the same tree")
         else:
             ctx.holds("S6", "%s holding a %s (%d paths)" % (what, label, len(paths)))
+    # the end of a command: `;` after an action, nothing after a test, the block (every child, once, in order) after a control -
+    # with or without arguments (`else` has none)
+    for what, typ, slotdef, kids, want in (
+            ("a control with a block and no argument (else)", "control", [], ["T1", "T2"], ("block", ["<T1>", "<T2>"])),
+            ("a control with a test and a block (if)", "control", [{"name": "slot", "type": ["test"], "required": True}], ["T2", "T3"], ("block", ["<T2>", "<T3>"])),
+            ("a control with an empty block", "control", [], [], ("block", [])),
+            ("an action without argument (keep)", "action", [], None, ("semicolon", None)),
+            ("a test without argument (true)", "test", [], None, ("nothing", None))):
+        env = {"self.args_definition": fd.Const(slotdef), "self.arguments": fd.Const({"slot": "T1"} if slotdef else {}),
+               "self.extra_arguments": fd.Const({}), "self.accept_children": fd.Const(kids is not None), "self.children": fd.Const(list(kids or [])),
+               "self.name": fd.Const("cmd"), "self._type": fd.Const(typ), "indentlevel": fd.Const(0)}
+        it = fd.Interp(f.node, R.Command.name, oracle, loop_unroll=4, max_depth=5, resolve=_mod_resolve)
+        it.class_attr_exprs = class_exprs
+        try:
+            paths = it.run(env)
+        except fd.TooManyPaths:
+            paths = []
+        n += 1
+        if len(paths) != 1 or paths[0].kind != "return" or set(it.unknowns):
+            ctx.notice("S6", "%s: not followed" % what)
+            undecided += 1
+            continue
+        evs = [x for x in paths[0].events if x[0] in ("write", "print")]
+        if not all(isinstance(x[1], fd.Const) and isinstance(x[1].v, str) for x in evs):
+            ctx.notice("S6", "%s: not followed (a written value is not constant)" % what)
+            undecided += 1
+            continue
+        text = "".join(x[1].v if x[0] == "write" else "\x01%s\x02" % x[1].v for x in evs)  # \x01..\x02: handed to the line printer
+        tail = text.split("\x02", 1)[1] if "\x02" in text else text
+        if slotdef:
+            tail = tail.split("<T1>", 1)[1] if "<T1>" in tail else tail
+        if want[0] == "block":
+            ok_ = tail.replace(" ", "").replace("\n", "") == "{" + "".join(want[1]) + "\x01}\x02"
+            shown = "` {`, %s, `}`" % ", ".join(want[1]) if want[1] else "` {`, `}`"
+        elif want[0] == "semicolon":
+            ok_ = tail.strip(" ") == ";\n"
+            shown = "`;` and a newline"
+        else:
+            ok_ = tail == ""
+            shown = "nothing"
+        if ok_:
+            ctx.holds("S6", "%s ends with %s" % (what, shown))
+        else:
+            ctx.violation("S6", f, "command-end:%s" % what, "tosieve, %s: after the name%s it writes %r; expected %s" % (
+                what, " and the argument" if slotdef else "", tail.replace("\x01", "<line:").replace("\x02", ">"), shown), node=f.node,
+                witness="`if true { keep; } else { stop; }` is written without the else block (or without its terminator): the output is "
+                        "rejected or means something else")
     ctx.need("S6", "slot form x value shape scenarios", n - undecided, 12)
     s6_status = "ok" if undecided == 0 and not any(f_.rule == "S6" for f_ in ctx.findings) else "partial"
     # items of a string list: the recorder stores complete quoted-string tokens (P14); each must be written back unchanged
